@@ -284,8 +284,109 @@ void refuse_case(vh::Case& c) {
   c.nontrivial(vh::hash_str(desc));
 }
 
+// ---------------------------------------------------------------------------------------- object state
+// scenario 0: a REFUSED range on an object that already has a field (",refused_on_live_object"); 1: valid -> valid re-initialisation;
+// 2 (operator class): move / swap / assignment followed by a use of the moved-to object.  Products within the documented bound.
+void state_case(vh::Case& c) {
+  static const Range good[] = {{2, 3}, {3, 5}, {2, 7}, {5, 7}, {3, 11}, {5, 13}, {7, 11}, {11, 13}, {2, 13}, {13, 13}, {251, 251}, {101, 103}, {4, 6}, {8, 12}, {24, 30}};
+  static const Range bad[] = {{8, 10}, {14, 16}, {24, 28}, {4, 4}, {9, 9}, {0, 1}, {1, 1}, {7, 5}, {90, 96}, {0, 0}, {114, 126}, {25, 25}, {32, 36}};
+  vh::Rng& r = c.rng;
+  const int scenario = (int)(c.k % 3);
+  const bool ops = scenario == 2 || ((c.k / 3) % 2) == 0;
+  const Range g1 = good[r.below(15)];
+  Range g2; do { g2 = good[r.below(15)]; } while (g2.lo == g1.lo && g2.hi == g1.hi);
+  const Range gb = bad[r.below(13)];
+  const char* const kScen[] = {"refused_on_live_object", "reinitialisation", "move_swap_assign"};
+  auto rs = [](const Range& g) { return "[" + std::to_string(g.lo) + "," + std::to_string(g.hi) + "]"; };
+  const char* cls = ops ? kOps : kShared;
+  std::string desc = std::string("state scenario=") + kScen[scenario] + " class=" + cls + " range1=" + rs(g1) + (scenario == 0 ? " refused=" + rs(gb) : " range2=" + rs(g2));
+  c.log(desc);
+  Rep R(c, cls, "range1=" + rs(g1) + (scenario == 0 ? " refused=" + rs(gb) : " range2=" + rs(g2)));
+  c.count(std::string("class.") + cls);
+  c.count(std::string("state.scenario.") + kScen[scenario]);
+  auto field_blk = [&](OpsSmall* op, const Range& g) {
+    std::vector<uint64_t> primes = primes_in(g.lo, g.hi);
+    const i128 P = product_of<i128>(primes);
+    c.log("block in " + rs(g));
+    std::vector<i128> red = reduced_boundary(P, r, 6);
+    for (i128 x : partial_operands<i128>(primes, P, r, 2)) if (red.size() < 24) red.push_back(x);
+    std::sort(red.begin(), red.end());
+    std::vector<i128> Qs = subproducts<i128>(primes, r, 4);
+    if (op) ops_block<OpsSmall, unsigned int>(R, *op, P, primes, red, red, red, Qs, (i128)UINT_MAX, false);
+    else elem_block<SharedSmall, false>(R, P, primes, red, red, Qs);
+  };
+  if (scenario == 2) {
+    R.sfx = ",after=move_swap_assign";
+    ops_move_swap_assign<OpsSmall>(g1, g2, [&](OpsSmall& op, const Range& g) { c.log("set_characteristic " + rs(g)); op.set_characteristic((int)g.lo, (int)g.hi); },
+                                   [&](OpsSmall& op, const Range& g) { field_blk(&op, g); });
+    finish_block(c, R, desc, r.next());
+    return;
+  }
+  OpsSmall op;
+  auto init = [&](const Range& g) { c.log("init " + rs(g)); if (ops) op.set_characteristic((int)g.lo, (int)g.hi); else SharedSmall::initialize((unsigned)g.lo, (unsigned)g.hi); };
+  auto blk = [&](const Range& g) { field_blk(ops ? &op : nullptr, g); };
+  init(g1);
+  blk(g1);
+  if (scenario == 1) {
+    R.sfx = ",after=reinitialisation";
+    init(g2); blk(g2);
+    init(g1); blk(g1);
+  } else {
+    must_refuse(R, "second initialisation with " + rs(gb), "live_object", [&] { init(gb); });
+    R.sfx = ",refused_on_live_object";
+    const i128 P1 = product_of<i128>(primes_in(g1.lo, g1.hi));
+    i128 got = ops ? (i128)op.get_characteristic() : (i128)SharedSmall::get_characteristic();
+    C10_CHECKV(R, i128, K_CHARACTERISTIC, got == P1, "characteristic", C10_NIL(i128), C10_NIL(i128), C10_NIL(i128), &got, &P1, "announced_after_refusal");
+    if (got != P1) return;
+    blk(g1);
+  }
+  finish_block(c, R, desc, r.next());
+}
+
+// ---------------------------------------------------------------------------------------- range end points
+// minimum below 2 (negative in the int interface of the operator class): "The characteristics will be all prime numbers in the given
+// interval".  Every initialisation first runs in a forked child under a CPU watchdog.
+struct Bound { int cls; long lo, hi; };   // cls 0 operators.set_characteristic, 1 operators constructor, 2 shared element
+void bounds_case(vh::Case& c) {
+  static const Bound table[] = {{0, -5, 7}, {0, 0, 2}, {0, -1, 2}, {0, INT_MIN, 3}, {0, 1, 7}, {0, 0, 13}, {1, -5, 7}, {1, 0, 2}, {1, INT_MIN, 5}, {2, 0, 2}, {2, 1, 7}, {2, 0, 13}};
+  const Bound& b = table[c.k % 12];
+  vh::Rng& r = c.rng;
+  Range g{b.lo, b.hi};
+  std::vector<uint64_t> primes = primes_in(g.lo, g.hi);
+  const i128 P = product_of<i128>(primes);
+  const char* cls = b.cls == 2 ? kShared : kOps;
+  uint64_t salt = r.next();
+  std::string desc = std::string("range_bounds class=") + cls + " form=" + std::to_string(b.cls) + " " + rdesc(g, primes, P) + " salt=" + std::to_string(salt);
+  c.log(desc);
+  Rep R(c, cls, rdesc(g, primes, P));
+  R.sfx = ",minimum=below_2";
+  c.count(std::string("class.") + cls);
+  c.count("bounds.minimum_below_2");
+  std::vector<i128> red = reduced_boundary(P, r, 8);
+  std::vector<i128> Qs = subproducts<i128>(primes, r, 6);
+  const std::string call = std::string(cls) + " with [" + std::to_string(b.lo) + "," + std::to_string(b.hi) + "]";
+  if (b.cls <= 1) {
+    OpsSmall op;
+    if (!guarded_init(R, 4, b.cls == 0 ? "set_characteristic" : "constructor", call, [&] {
+          if (b.cls == 0) op.set_characteristic((int)b.lo, (int)b.hi); else { OpsSmall o2((int)b.lo, (int)b.hi); op = o2; } })) return;
+    i128 got = op.get_characteristic();
+    C10_CHECKV(R, i128, K_CHARACTERISTIC, got == P, "characteristic", C10_NIL(i128), C10_NIL(i128), C10_NIL(i128), &got, &P, "product_of_the_primes_of_the_range");
+    if (got != P) return;
+    ops_block<OpsSmall, unsigned int>(R, op, P, primes, red, red, red, Qs, (i128)UINT_MAX, false);
+  } else {
+    if (!guarded_init(R, 4, "initialize", call, [&] { SharedSmall::initialize((unsigned)b.lo, (unsigned)b.hi); })) return;
+    i128 got = SharedSmall::get_characteristic();
+    C10_CHECKV(R, i128, K_CHARACTERISTIC, got == P, "characteristic", C10_NIL(i128), C10_NIL(i128), C10_NIL(i128), &got, &P, "product_of_the_primes_of_the_range");
+    if (got != P) return;
+    elem_block<SharedSmall, false>(R, P, primes, red, red, Qs);
+  }
+  finish_block(c, R, desc, salt);
+}
+
 }  // namespace
 
+VH_CONFIG("ms_bounds", bounds_case);
+VH_CONFIG("ms_state", state_case);
 VH_CONFIG("ms_exhaustive", exh_case);
 VH_CONFIG("ms_fixed", fixed_case);
 VH_CONFIG("ms_all_ranges", all_ranges_case);
